@@ -15,6 +15,14 @@ open SV
 theorem unicode_wf : Gen.unicode.WF :=
   Unicode.wf_of_wfb (km := Gen.upperKeysMask) (sm := Gen.spacesMask) (by decide +kernel)
 
+/-- Instance obligation: the pattern `clean` removes is `\s+` (with default flags), i.e. runs of
+    exactly the `\s` code points of the Unicode table — nothing more, nothing less. -/
+theorem clean_pattern_is_ws : Gen.cleanPattern = [92, 115, 43] := by decide +kernel
+
+/-- Instance obligation: the alphabet of `numerify` is `0-9A-Z`. -/
+theorem alphabet_is_alnum :
+    Gen.alphabet = (List.range 10).map (· + 48) ++ (List.range 26).map (· + 65) := by decide +kernel
+
 /-- Whitespace anywhere: inserting any `\s` code point at any place leaves the compact form
     unchanged. -/
 theorem clean_ws (U : Unicode) (w : Nat) (hw : U.isSpace w = true) (xs ys : Str) :
